@@ -186,6 +186,12 @@ pub mod verif {
         super::router::authority_matched_cert_name(authority, names)
     }
 
+    /// `h2::next_stream_id` (`pub(super)`): the pure stream-id allocator
+    /// behind `ConnectionH2::new_stream_id`, `(issued, next watermark)`.
+    pub fn next_stream_id(last_stream_id: u32, is_client: bool) -> Option<(u32, u32)> {
+        super::h2::next_stream_id(last_stream_id, is_client)
+    }
+
     /// `h2::error_nom_to_h2` (private): the H2 error code the connection sends
     /// in GOAWAY when `parser::frame_body` fails.
     pub fn error_nom_to_h2(
